@@ -9,7 +9,11 @@ CHECK = {
                  "brute-force oracles; for the search structures additionally every member of a finite family of block-clustered "
                  "generator sets (all unordered pairs of the s^3 search blocks, all lines, slabs, diagonals and diagonal planes of "
                  "blocks) x every block as origin of the search, so that the shell-by-shell block traversal is driven to its last "
-                 "shell and last block",
+                 "shell and last block; and every member of a finite family of dyadic tie lattices (vertex-centred, cell-centred, "
+                 "mixed, thinned and two-level lattices with power-of-two point counts, all coordinates / smoothing lengths / radii "
+                 "integer multiples of 2^-6) x every half-lattice point as query, where every distance, node-box distance and "
+                 "covered radius is exact in double and is compared with an integer oracle that has no tie band (distance exactly "
+                 "equal to h, to the node maximum, to the search radius)",
     "level_text": "AMR state space: every refinement history of the real AMRGrid inside the bound (block layouts 1, 2x1x1, 3x1x1, "
                   "3x2x1 (+1x1x2, 1x2x3); all 8 children: quick <=5/4/4/3 refinements with leaves to level 3, thorough <=6 "
                   "refinements to level 3 and <=5 to level 4 for one block, <=4 to level 4 for two and three blocks, <=4 to level 3 / <=3 to level 4 for six; "
@@ -35,6 +39,18 @@ CHECK = {
                   "and not, box-scale smoothing lengths) on the sets with s<=3 (thorough s<=4); the static helpers set_max_range/"
                   "increase_indices of both iterators for all grids up to 5^3 (thorough 7^3) blocks x all anchors against the "
                   "enumeration of Chebyshev shells (verdict only for equal block counts, the only ones a PointLocations can have). "
+                  "Dyadic tie lattices (exact ties; boxes 1x1x1, 4x2x1, 1x3x2; unit 2^-6): lattices of nx x ny x nz points, counts in "
+                  "{1,2,4,8,16} and unequal per axis (quick 20 sets up to 8x8x8 in the unit box, 8x4x2 / 2x4x8 / 4x8x2 in the skew boxes, "
+                  "two-level 4x4x4+fine octant; thorough 36 sets: all five kinds at 8x8x8, 16x8x4, 4x16x8, two-level 8x8x8) x periodic "
+                  "flag x 7 smoothing-length patterns (1/2, 1, 2, 5 spacings; 1..3 spacings by index; zeros mixed with 1 spacing; the "
+                  "spacing of axis i mod 3 / of the own refinement level) x EVERY point of the half-lattice of the finest spacing as "
+                  "query: Octree get_ngbs, get_ngbs_sphere (radii 0, 1/2, 1, 3 spacings), get_ngbs_list (0, 1, 2 and 3 centres), get_closest_ngb member by "
+                  "member against integer arithmetic (neighbour iff r^2 <= (h+radius)^2, no tolerance); PointLocations with every "
+                  "num_per_cell in {1,2,4,8,64,N} that yields a power-of-two block count: get_closest_neighbour from every half-lattice "
+                  "point, both radius protocols (from half-lattice points and from every stored generator) x 7 radii that are multiples "
+                  "of the spacing / block side, zero tolerance. The evidence counts the comparisons on each side and ON the equality "
+                  "(particle-query pairs with r == h, tree nodes with box distance == node maximum that hold such a neighbour, "
+                  "protocols stopped with covered radius == radius). "
                   "The refinement histories form a finite state machine whose "
                   "observable behaviour must depend on the state only, which is what explicit-state search decides.",
     "level_note": "Nothing is claimed beyond the stated budgets (full-alphabet BFS stops at 6 refinements; 12 refinements only over "
@@ -50,15 +66,20 @@ CHECK = {
                   "answers may differ from brute force by a factor (1+16 eps) in r^2 (the code compares double r^2 values, 4 eps each, "
                   "k=2); radius protocol: a generator counts as inside the radius if r < rad - 8 eps rad - 8 eps (s+3)(|anchor|+|side|) "
                   "(round-off of the covered-region bounds, k=4). The block-pair family is complete for s<=6 only; for larger s only "
-                  "lines/slabs/diagonals are enumerated.",
+                  "lines/slabs/diagonals are enumerated. Exact ties: a particle at distance exactly h (+radius) counts as a neighbour "
+                  "(the inclusive leaf criterion r <= h of Octree.hpp; the tree pruning has to be loss-free with respect to it); this is "
+                  "decided without tolerance only on the dyadic tie lattices, where every floating-point operation of the code under "
+                  "test is exact (integers < 2^40 in units 2^-12), elsewhere |r-h| <= 8 eps (r+h) is accepted either way. Which of several "
+                  "exactly equidistant closest points is returned is not prescribed. PointLocations on tie lattices only for "
+                  "power-of-two block counts (other counts have inexact block faces and are covered with tolerance by the older sets).",
     "quick_deadline": 118,
     "thorough_deadline": 1200,
     "parts": [
-        {"name": "amr", "bin": "c16_amr", "quick_share": 0.335, "thorough_share": 0.34},
-        {"name": "cartesian", "bin": "c16_cartesian", "quick_share": 0.26, "thorough_share": 0.35},
-        {"name": "amrdens", "bin": "c16_amrdens", "quick_share": 0.224, "thorough_share": 0.15},
+        {"name": "amr", "bin": "c16_amr", "quick_share": 0.335, "thorough_share": 0.33},
+        {"name": "cartesian", "bin": "c16_cartesian", "quick_share": 0.253, "thorough_share": 0.34},
+        {"name": "amrdens", "bin": "c16_amrdens", "quick_share": 0.217, "thorough_share": 0.15},
         {"name": "voronoi", "bin": "c16_voronoi", "quick_share": 0.065, "thorough_share": 0.05},
-        {"name": "search", "bin": "c16_search", "quick_share": 0.116, "thorough_share": 0.11},
+        {"name": "search", "bin": "c16_search", "quick_share": 0.13, "thorough_share": 0.13},
     ],
     "assumptions": [],
 }
